@@ -38,6 +38,14 @@ fn neighbours(s: &Segment) -> Vec<Segment> {
     v
 }
 
+/// a stop or nasal directly before a click consonant, or a click directly before a uvular, in one syllable: the notation writes
+/// such a pair exactly like one (contour) click consonant
+pub fn click_ambiguous(w: &Word) -> bool {
+    let is_click = |g: &str| g.chars().any(|c| "ʘǀǁǃ‼ǂ".contains(c));
+    w.syllables.iter().any(|sy| { let gs: Vec<String> = sy.segments.iter().map(|x| x.get_as_grapheme().unwrap_or_default()).collect();
+        (1..gs.len()).any(|j| (is_click(&gs[j]) && !is_click(&gs[j - 1]) && gs[j - 1].chars().any(|c| "kɡŋqɢɴ".contains(c))) || (is_click(&gs[j - 1]) && gs[j].chars().next().map(|c| "qɢɴχʁ".contains(c)).unwrap_or(false))) })
+}
+
 fn word_case(rep: &mut Report, w: &Word, fam: &str) {
     rep.eval(1);
     let text = match render(w) { Ok(t) => t, Err(Applied::Abort(sg)) => { rep.abort(sg, || json!({"word": sw::dump(w)})); return } Err(_) => return };
@@ -46,10 +54,7 @@ fn word_case(rep: &mut Report, w: &Word, fam: &str) {
     let case = || json!({"kind": "word", "sylls": w.syllables.iter().map(|s| json!({"segs": s.segments.iter().map(|x| json!([x.root, x.manner, x.laryngeal, *x.place])).collect::<Vec<_>>(), "stress": sw::stress_code(s.stress), "tone": s.tone})).collect::<Vec<_>>()});
     // a stop/nasal next to a click (or a click next to a uvular) can be read as one click consonant: the notation itself is ambiguous there
     // (only when the word really has such a pair side by side in one syllable - a click elsewhere in the word explains nothing)
-    let is_click = |g: &str| g.chars().any(|c| "ʘǀǁǃ‼ǂ".contains(c));
-    let ambiguous = w.syllables.iter().any(|sy| { let gs: Vec<String> = sy.segments.iter().map(|x| x.get_as_grapheme().unwrap_or_default()).collect();
-        (1..gs.len()).any(|j| (is_click(&gs[j]) && !is_click(&gs[j - 1]) && gs[j - 1].chars().any(|c| "kɡŋqɢɴ".contains(c))) || (is_click(&gs[j - 1]) && gs[j].chars().next().map(|c| "qɢɴχʁ".contains(c)).unwrap_or(false))) });
-    let fam = &if ambiguous { format!("{fam}:next-to-a-click") } else { fam.to_string() };
+    let fam = &if click_ambiguous(w) { format!("{fam}:next-to-a-click") } else { fam.to_string() };
     match parse_word(&text) {
         Ok(back) => if back != *w {
             // which feature of the word is lost?
